@@ -653,6 +653,7 @@ pub fn check(ctx: &mut Ctx) -> Option<Meta> {
             cfg.terminal_mode = 2;
             cfg.pre_pulls = true;
             cfg.max_ops = 9;
+            cfg.min_chunk = 0;
             let rule = "E2 lock-step: every cloned()/copied() adaptor kind (over slice, Vec, array and a wrapped iterator of references with exact/inexact/unbounded hints) and its underlying reference-yielding iterator are built over the same data and driven by the same generated operation list incl. into_seq_iter; oracle: operation by operation equal indices, chunk boundaries, len() trajectories, try_get_len / has_more, end and skip behaviour, items are owned clones of the same elements, source intact, clone ledger balanced; non-trivial = history contains a one-shot chunk, a buffered chunk, a length query and a skip or into_seq_iter".to_string();
             ctx.run_campaign(&Campaign {
                 name: "seq-lockstep".into(),
@@ -724,6 +725,19 @@ pub fn check(ctx: &mut Ctx) -> Option<Meta> {
                 make_strategy: &|| case_strategy(&cfg_r),
                 run: &eval_c15_real,
                 rule: rule.clone(),
+            });
+            let mut cfg_f = cfg_c15(thorough, false);
+            cfg_f.layouts = vec![Layout::Boxed, Layout::Str, Layout::Tracked];
+            cfg_f.w_drain_composite = 3;
+            cfg_f.end_with_drain = true;
+            cfg_f.end_drain_composite = true;
+            cfg_f.fault_sites = vec![FaultSite::Closure, FaultSite::Closure, FaultSite::ProbeNext];
+            ctx.run_campaign(&Campaign {
+                name: "seq-alloc-balance-after-panic".into(),
+                cases: scale_cases(ctx, 40_000, 30),
+                make_strategy: &|| case_strategy(&cfg_f),
+                run: &eval_c15_seq,
+                rule: "the same balance oracle when a for_each / fold closure or the wrapped iterator panics at a generated point (caught by the caller); everything is dropped afterwards".into(),
             });
             let mut a = assumptions_common();
             a.push("only allocations made through the global allocator on the threads of the case are counted (gate on); thread creation/joining is excluded".into());
